@@ -16,6 +16,8 @@ structure RawClosed (Q : List Ev → Prop) : Prop where
   sctor : ∀ d, Q [Ev.sctor d]
   ssucc : ∀ d c o, Q [Ev.ssucc d c o]
   sdtor : ∀ d, Q [Ev.sdtor d]
+  /-- calls of rule-level action classes (`apply< A... >`, `if_apply< R, A... >`) -/
+  ract : ∀ k sd b e, Q [Ev.ruleApply k sd b e]
 
 def QRec (Q : List Ev → Prop) (rec : Rec) : Prop := ∀ j a m env st r, rec j a m env st = some r → Q r.raw
 
@@ -24,6 +26,7 @@ theorem RawClosed.toE {Q : List Ev → Prop} (hQ : RawClosed Q) : RawClosedE (fu
   app := hQ.app
   raise := fun _ => hQ.raise
   fam := id
+  ctlf := id
   scope := by
     intro env l o ho q
     have : Ev.sctor (env.sd + 1) :: l ++ o ++ [Ev.sdtor (env.sd + 1)] =
@@ -40,6 +43,7 @@ theorem body_raw {Q : List Ev → Prop} (hQ : RawClosed Q) {rec : Rec} (hrec : Q
     (kind : Kind) (a : AMode) (m : RMode) (env : Env) (st : St) (r : Ret)
     (h : body cx rec k kind a m env st = some r) : Q r.raw :=
   body_rawE hQ.toE cx k kind a (fun j m env st r h => hrec j a m env st r h)
-    (fun j m env st r h => hrec j .nothing m env st r h) (fun _ j m env st r h => hrec j .action m env st r h) m env st r h
+    (fun j m env st r h => hrec j .nothing m env st r h) (fun _ j m env st r h => hrec j .action m env st r h) m env
+    (fun _ acts b e => runActs_raw hQ.nil hQ.app cx env.sd b e (fun k => hQ.ract k _ _ _) acts) st r h
 
 end Pegtl
